@@ -503,6 +503,7 @@ def r17_4(ctx, repo):
                 return self.ev(n.args[0], env, fn_, depth, owner)
             return super()._call(n, env, fn_, depth, owner)
     n = 0
+    n_first = 0
     for cls in sorted(repo.subclasses('PopulationModel', strict=True)):
         c = repo.cls(cls)
         fh = c.methods.get('n_hierarchical_parameters')
@@ -546,6 +547,50 @@ def r17_4(ctx, repo):
                 continue
             d = sp.expand(h[1] - p_)
             verdicts.append(('ok', None) if d == 0 else ('bad', (h[1], p_)))
+            # first entry: one bottom-level parameter per individual and
+            # hierarchical dimension
+            kd, fd = repo.resolve(cls, 'n_hierarchical_dim')
+            if fd is not None and isinstance(h[0], (sp.Expr, int)) \
+                    and not sp.sympify(h[0]).has(Bw):
+                env2 = dict(env)
+                # the field is set by the constructors: the most derived
+                # assignment wins (subclasses assign after super().__init__)
+                for k_ in repo.mro(cls):
+                    init = repo.classes[k_].methods.get('__init__') \
+                        if k_ in repo.classes else None
+                    asg = [a for a in ast.walk(init) if isinstance(
+                        a, ast.Assign) and U(a.targets[0]) ==
+                        'self._n_hierarchical_dim'] if init else []
+                    if asg:
+                        v_ = U(asg[-1].value)
+                        if v_ == 'self._n_dim':
+                            env2['self._n_hierarchical_dim'] = env[
+                                'self._n_dim']
+                        elif v_ == '0':
+                            env2['self._n_hierarchical_dim'] = sp.Integer(0)
+                        break
+                try:
+                    lf = L(repo, cls, flags={MASK + ' is None': mask_none})
+                    D = lf.run(fd, env2)
+                except Unsupported:
+                    D = None
+                if isinstance(D, (sp.Expr, int)) and not sp.sympify(
+                        D).has(Bw, Pw):
+                    n_first += 1
+                    if sp.expand(sp.sympify(h[0]) - NI * sp.sympify(D)) != 0:
+                        ctx.violation(
+                            rule, where, construct, 'individual count',
+                            'n_hierarchical_parameters reports `%s` '
+                            'individual-level parameters but the model has '
+                            '`%s` hierarchical dimension(s) for each of the '
+                            'n_ids individuals (n_hierarchical_dim): the '
+                            'bottom block of a hierarchical vector and of '
+                            'the reduced gradient is cut at the wrong place '
+                            'for n_dim > 1' % (h[0], D))
+                    else:
+                        ctx.ok(rule, where, construct,
+                               'first entry equals n_ids * '
+                               'n_hierarchical_dim()')
             if cls != 'ReducedPopulationModel':
                 break
         if all(v[0] == 'skip' for v in verdicts):
@@ -569,6 +614,9 @@ def r17_4(ctx, repo):
                    'second entry equals n_parameters()')
     if n < 5:
         ctx.error(rule, 'only %d classes evaluated (floor 5)' % n)
+    if n_first < 4:
+        ctx.error(rule, 'individual-level count evaluated for %d classes '
+                  'only (floor 4)' % n_first)
 
 
 # -----------------------------------------------------------------------------
